@@ -58,6 +58,16 @@ def synthetic(rng, infeasible=False):
     for i, t in enumerate(ct):
         slack = float(np.round(rng.choice([0., 0., 0.5, 2.]), 2))
         b[i] = ax[i] + slack if t == 'U' else (ax[i] - slack if t == 'L' else ax[i])
+    empty_row = None
+    if not mip and rng.random() < 0.12:
+        # a row WITHOUT any entry (a restriction whose variables are all outside the horizon): harmless if its right-hand side admits 0, otherwise
+        # the problem has no feasible point
+        t_ = gen.pick(rng, list('ULSN')); viol = rng.random() < 0.5
+        bb = {'U': -1.5 if viol else 2., 'L': 1.5 if viol else -2., 'S': 1. if viol else 0., 'N': 1. if viol else 0.}[t_]
+        pos_ = int(rng.integers(0, m + 1))
+        Ad = np.asarray(A.todense()); Ad = np.insert(Ad, pos_, 0., axis=0); A = sp.lil_matrix(Ad)
+        b = np.insert(b, pos_, bb); ct = ct[:pos_] + t_ + ct[pos_:]
+        empty_row = {'row': pos_, 'type': t_, 'b': bb, 'violated': bool(viol)}
     if infeasible:
         a = np.round(rng.uniform(-2, 2, n), 1); a[a == 0] = 1.
         mx = float(np.sum(np.where(a > 0, a * u, a * l)))
@@ -86,7 +96,7 @@ def synthetic(rng, infeasible=False):
         mp = mp.drop(columns=['bool'])
     op = OptimProblem(c=c, l=l.astype(float), u=u.astype(float), A=A, b=b, cType=ct, mapping=mp)
     desc = {'c': c.tolist(), 'l': l.tolist(), 'u': u.tolist(), 'A': np.asarray(A.todense()).round(3).tolist(), 'b': np.round(b, 4).tolist(),
-            'cType': ct, 'bool': np.where(isb)[0].tolist(), 'map_index': [int(i) for i in mp.index], 'boolean_fixed_to_fraction': frac_fixed, 'one_sided_infinite_bounds': one_sided}
+            'cType': ct, 'bool': np.where(isb)[0].tolist(), 'map_index': [int(i) for i in mp.index], 'boolean_fixed_to_fraction': frac_fixed, 'one_sided_infinite_bounds': one_sided, 'empty_row': empty_row}
     return op, desc, mip
 
 
@@ -128,7 +138,26 @@ def run_case(rng, tier, case):
                     scen = [{k: np.asarray(v, float) for k, v in gen.gen_prices(rng, T_, sorted(spec['prices'])).items()} for _ in range(int(rng.integers(1, 4)))]
                     cs = b.portfolio.create_cost_samples(scen, b.timegrid)
                     op = b.portfolio.setup_optim_problem(b.prices, b.timegrid)
-                    op.optimize(target='robust', samples=cs)
+                    res_r = op.optimize(target=gen.pick(rng, ['robust', 'Robust']), samples=cs)
+                # "no feasible point has a better value": for the robust target the value of a point is its minimum over the GIVEN samples; the best
+                # attainable minimum comes from an independent max-min LP (variables x and z: max z, z <= -c_s.x for every sample, rows and bounds of the problem)
+                if not isinstance(res_r, str):
+                    from ..canon import Snap
+                    sn = Snap(op)
+                    A_, lo_, hi_ = solve.rows(sn)
+                    nq = len(sn.c)
+                    Az = sp.hstack([A_, sp.csr_matrix((A_.shape[0], 1))]).tocsr() if A_.shape[0] else sp.csr_matrix((0, nq + 1))
+                    C_ = np.array([np.asarray(c_, float) for c_ in cs])
+                    Asmp = sp.hstack([sp.csr_matrix(C_), sp.csr_matrix(np.ones((len(cs), 1)))]).tocsr()          # c_s.x + z <= 0
+                    Aall = sp.vstack([Az, Asmp]).tocsr()
+                    lo_all = np.concatenate([lo_, np.full(len(cs), -np.inf)]); hi_all = np.concatenate([hi_, np.zeros(len(cs))])
+                    cz = np.zeros(nq + 1); cz[-1] = -1.
+                    ref_r = solve.highs(cz, np.append(sn.l, -1e12), np.append(sn.u, 1e12), Aall, lo_all, hi_all)
+                    if ref_r['status'] == 'optimal':
+                        zstar = float(ref_r['x'][-1])
+                        got = float(np.min(-C_ @ np.asarray(res_r.x, float)))
+                        case.check('opt.robust_point_is_maxmin_optimal', got >= zstar - solve.TOL_VAL * (1 + abs(zstar)), minimum_over_samples_at_returned_point=got, best_attainable_minimum=zstar,
+                                   samples=len(cs))
             except Exception as e:
                 case.reject('robust run raised %s: %s' % (type(e).__name__, str(e)[:150]))
         elif mode == 'repeated':
